@@ -44,6 +44,57 @@ def cap_violations(ctx, per_key=12):
     ctx._gmx_capped = True
 
 
+GMX_MODULES = ["demeter.gmx.market", "demeter.gmx.market2", "demeter.gmx.helper", "demeter.gmx.helper2", "demeter.gmx._typing", "demeter.gmx._typing2",
+               "demeter.gmx.gmx_v2.ExecuteDepositUtils", "demeter.gmx.gmx_v2.ExecuteWithdrawUtils", "demeter.gmx.gmx_v2.MarketUtils",
+               "demeter.gmx.gmx_v2.SwapPricingUtils", "demeter.gmx.gmx_v2._typing", "demeter.gmx.gmx_v2.utils"]
+
+
+def static_state_snapshot():
+    """fingerprints of everything OUTSIDE the market objects that could remember something between calls: module-level and class-level
+    mutable containers of the GMX modules and memoising wrappers (functools caches) on their functions / methods.  Taken before and after a
+    run: an entry that changed while operations ran is hidden state (a memo table); constant tables do not change."""
+    import enum
+    import importlib
+    import inspect
+    import types
+    snap = {}
+
+    def cache_of(f):
+        f = getattr(f, "__func__", f)
+        return f if hasattr(f, "cache_info") else None
+
+    def fp(v):
+        return (len(v), hash(repr(v)[:100000]))
+    for mn in GMX_MODULES:
+        try:
+            m = importlib.import_module(mn)
+        except Exception:  # noqa: BLE001
+            continue
+        for k, v in list(vars(m).items()):
+            if k.startswith("__"):
+                continue
+            if isinstance(v, (dict, list, set, bytearray)):
+                snap[f"{mn}.{k}"] = fp(v)
+            elif isinstance(v, types.FunctionType) and cache_of(v) is not None:
+                snap[f"{mn}.{k}()"] = tuple(cache_of(v).cache_info())[:4]
+            elif inspect.isclass(v) and v.__module__ == mn and not issubclass(v, enum.Enum):
+                for a, av in list(vars(v).items()):
+                    raw = av.__func__ if isinstance(av, (staticmethod, classmethod)) else av
+                    if isinstance(raw, (dict, list, set)) and not a.startswith("__"):
+                        snap[f"{mn}.{k}.{a}"] = fp(raw)
+                    elif callable(raw) and cache_of(raw) is not None:
+                        snap[f"{mn}.{k}.{a}()"] = tuple(cache_of(raw).cache_info())[:4]
+    return snap
+
+
+def static_state_check(ctx, before):
+    after = static_state_snapshot()
+    changed = sorted(k for k in set(before) | set(after) if before.get(k) != after.get(k))
+    ctx.note("gmx_static_state_entries", len(after))
+    if changed:
+        ctx.disagree(f"state outside the market objects changed while GMX operations ran (a memo table / cache the model does not know): {changed}", {"world": None})
+
+
 # ============================================================================================== v1
 _recorded = None
 
@@ -92,19 +143,32 @@ def v1_needed_cols(names):
     return list(dict.fromkeys(cols))
 
 
-class V1World:
-    """a real GmxMarket attached to a real Broker, on one data row"""
+def bar_ts(k: int):
+    from datetime import timedelta
+    return TS + timedelta(minutes=k)
 
-    def __init__(self, row: dict, token_names, wallet, glp=None, reward=None):
-        import pandas as pd
+
+def v1_frame(rows):
+    import pandas as pd
+    idx = [bar_ts(k) for k in range(len(rows))]
+    return pd.DataFrame({c: pd.Series([r[c] for r in rows], index=idx, dtype=object) for c in rows[0]})
+
+
+class V1World:
+    """a real GmxMarket attached to a real Broker, on one data row — or on a frame of several rows (bars): the SAME market object is
+    moved from bar to bar with `set_bar` (= `set_market_status`, what Actuator does at the head of every bar)"""
+
+    def __init__(self, row, token_names, wallet, glp=None, reward=None, allow_negative=False):
         from demeter import TokenInfo, MarketInfo, MarketTypeEnum, Broker, MarketStatus
         from demeter.gmx import GmxMarket
-        self.row = dict(row)
+        self.rows = [dict(r) for r in row] if isinstance(row, (list, tuple)) else [dict(row)]
+        self.bar = 0
         self.token_names = list(token_names)
         self.tok = {n: TokenInfo(n, V1_DEC.get(n, 18)) for n in set(self.token_names) | set(V1_DEC)}
-        df = pd.DataFrame({k: pd.Series([v], index=[TS], dtype=object) for k, v in row.items()})
+        df = v1_frame(self.rows)
         self.market = GmxMarket(MarketInfo("gmx", MarketTypeEnum.gmx_v1), tokens=[self.tok[n] for n in self.token_names], data=df)
-        self.broker = Broker()
+        self.allow_negative = allow_negative
+        self.broker = Broker(allow_negative_balance=True) if allow_negative else Broker()
         self.broker.quote_token = self.market.quote_token      # USD
         self.acts = []
         self.broker._record_action_callback = self.acts.append
@@ -117,10 +181,24 @@ class V1World:
             self.market.reward = reward
         self.market.set_market_status(MarketStatus(TS, None), None)
 
+    @property
+    def row(self):
+        return self.rows[self.bar]
+
+    def set_bar(self, k: int):
+        """move the live market object to bar k exactly as Actuator does"""
+        from demeter import MarketStatus
+        self.bar = k
+        self.market.set_market_status(MarketStatus(bar_ts(k), None), None)
+
     # ---- raw state
     def dump(self):
         m = self.market
         return {"glp": m.glp_amount, "reward": m.reward, "wallet": [[k.name, v.balance] for k, v in self.broker.assets.items()]}
+
+    def object_fields(self):
+        """names of everything stored on the live market object (a new attribute = per-object state the model does not know)"""
+        return sorted(vars(self.market))
 
     def snapshot(self):
         m = self.market
@@ -138,13 +216,23 @@ class V1World:
     def spec(self):
         """everything needed to rebuild this world (replays)"""
         d = self.dump()
-        return {"ver": 1, "row": {k: ser_val(v) for k, v in self.row.items()}, "tokens": self.token_names,
-                "wallet": [[k, str(v)] for k, v in d["wallet"]], "glp": str(d["glp"]), "reward": str(d["reward"])}
+        sp = {"ver": 1, "row": {k: ser_val(v) for k, v in self.row.items()}, "tokens": self.token_names,
+              "wallet": [[k, str(v)] for k, v in d["wallet"]], "glp": str(d["glp"]), "reward": str(d["reward"])}
+        if self.allow_negative:
+            sp["allow_negative"] = True
+        return sp
+
+    def spec_bars(self):
+        """like `spec`, with the whole frame (multi-bar replays start at bar 0)"""
+        sp = self.spec()
+        sp["rows"] = [{k: ser_val(v) for k, v in r.items()} for r in self.rows]
+        return sp
 
     @staticmethod
     def from_spec(sp):
-        return V1World({k: de_val(v) for k, v in sp["row"].items()}, sp["tokens"], [(k.lower(), Decimal(v)) for k, v in sp["wallet"]],
-                       Decimal(sp["glp"]), Decimal(sp["reward"]))
+        rows = [{k: de_val(v) for k, v in r.items()} for r in sp["rows"]] if "rows" in sp else {k: de_val(v) for k, v in sp["row"].items()}
+        return V1World(rows, sp["tokens"], [(k.lower(), Decimal(v)) for k, v in sp["wallet"]],
+                       Decimal(sp["glp"]), Decimal(sp["reward"]), allow_negative=sp.get("allow_negative", False))
 
     # ---- operations
     def apply(self, op):
@@ -159,6 +247,8 @@ class V1World:
             elif op["kind"] == "update":
                 m.update()
                 res = None
+            elif op["kind"] == "fee":
+                res = m.get_fee_basis_points(self.token(op["tok"], op.get("dec")), op["amount"], op["increase"])
             else:
                 raise ValueError(op["kind"])
             out = "ok"
@@ -210,7 +300,6 @@ def _logu(rng, lo, hi):
 
 def gen_v1_row(rng):
     """(row, token_names, kind). Rows satisfy glp_price = (aum/1e30)/(glp/1e18) as the recorded data does."""
-    import numpy as np
     rec = recorded_rows()
     k = rng.random()
     if rec is not None and k < 0.3:
@@ -227,15 +316,23 @@ def gen_v1_row(rng):
     names = [n for n, _ in rng.sample(V1_TOKENS, cnt)]
     if "wavax" not in names and rng.random() < 0.5:
         names.append("wavax")
+    return gen_v1_synth(rng, names), names, "synthetic"
+
+
+V1_BASE_PRICE = {"btc.b": 66066.487, "wbtc": 66066.487, "weth": 2629.059, "wavax": 29.07, "mim": 1.0, "usdc": 1.0, "usdc.e": 1.0}
+
+
+def gen_v1_synth(rng, names, degenerate=True):
+    """a synthetic row for the given token set"""
+    import numpy as np
     row = {}
-    supply = rng.choice([0, rng.randint(1, 10 ** 6), int(_logu(rng, 18, 27))]) if rng.random() < 0.15 else int(_logu(rng, 20, 27))
+    supply = rng.choice([0, rng.randint(1, 10 ** 6), int(_logu(rng, 18, 27))]) if (degenerate and rng.random() < 0.15) else int(_logu(rng, 20, 27))
     weights = {n: rng.choice([0, 1, 1000, 3000, 10000, 20000, 46000, rng.randint(1, 60000)]) for n in names}
     if sum(weights.values()) == 0:
         weights[names[0]] = 1
     tot = sum(weights.values())
-    base_price = {"btc.b": 66066.487, "wbtc": 66066.487, "weth": 2629.059, "wavax": 29.07, "mim": 1.0, "usdc": 1.0, "usdc.e": 1.0}
     for n in names:
-        p = int(base_price[n] * rng.uniform(0.5, 2) * 10 ** 6) * 10 ** 24
+        p = int(V1_BASE_PRICE[n] * rng.uniform(0.5, 2) * 10 ** 6) * 10 ** 24
         row[f"{n}_price"] = Decimal(p) if n in ("weth", "wavax") else p
         tgt = weights[n] * supply // tot
         fct = rng.choice([0, 0.25, 0.5, 0.9, 0.999999, 1, 1, 1.000001, 1.1, 1.5, 2.5, 4])
@@ -244,15 +341,82 @@ def gen_v1_row(rng):
     if "wavax_price" not in row:
         row["wavax_price"] = Decimal(int(29.07 * 10 ** 6) * 10 ** 24)
     row["usdg"] = supply
-    aum = int(_logu(rng, 33, 40)) if rng.random() > 0.03 else rng.choice([0, 10 ** 11, 10 ** 12])
-    glp = int(aum / E12 / rng.uniform(0.5, 2)) if rng.random() > 0.03 else rng.choice([0, 1])
+    aum = int(_logu(rng, 33, 40)) if (not degenerate or rng.random() > 0.03) else rng.choice([0, 10 ** 11, 10 ** 12])
+    glp = int(aum / E12 / rng.uniform(0.5, 2)) if (not degenerate or rng.random() > 0.03) else rng.choice([0, 1])
     row["aum"] = Decimal(aum)
     row["glp"] = Decimal(glp)
     row["glp_price"] = (Decimal(aum) / E30) / (Decimal(glp) / E18) if glp else Decimal(1)
     if rng.random() < 0.5:
         row["glp_price"] = Decimal(repr(float(row["glp_price"])))      # 16-17 digits as in the recorded files
     row["interval"] = np.float64(int(_logu(rng, 12, 16)))
-    return row, names, "synthetic"
+    return row
+
+
+V1_GROUPS = ("weights", "usdg", "aum", "supply", "prices", "interval")
+
+
+def mutate_v1_row(rng, row, names, group):
+    """the next bar's row: `row` with ONE group of fields changed (so a quantity derived from that group alone, if cached, goes stale),
+    glp_price kept consistent with aum / glp"""
+    import numpy as np
+    r = dict(row)
+    if group == "weights":
+        for n in names:
+            if rng.random() < 0.7:
+                r[f"{n}_weight"] = np.int64(rng.choice([0, 1, 500, 7000, 25000, rng.randint(1, 60000)]))
+        if sum(int(r[f"{n}_weight"]) for n in names) == 0:
+            r[f"{names[0]}_weight"] = np.int64(rng.randint(1, 60000))
+        if all(int(r[f"{n}_weight"]) == int(row[f"{n}_weight"]) for n in names):
+            r[f"{names[0]}_weight"] = np.int64(int(row[f"{names[0]}_weight"]) + rng.randint(1, 40000))
+    elif group == "usdg":
+        for n in names:
+            r[f"{n}_usdg"] = int(int(row[f"{n}_usdg"]) * rng.choice([0, 0.3, 0.9, 1.1, 2, 5])) + rng.choice([0, 1, 10 ** 18])
+        r["usdg"] = max(1, int(int(row["usdg"]) * rng.choice([0.5, 0.9, 1.1, 2])))
+    elif group == "aum":
+        r["aum"] = Decimal(int(int(row["aum"]) * rng.uniform(0.5, 2)) + 1)
+    elif group == "supply":
+        r["glp"] = Decimal(int(int(row["glp"]) * rng.uniform(0.5, 2)) + 1)
+    elif group == "prices":
+        for n in names:
+            v = int(int(row[f"{n}_price"]) * rng.uniform(0.5, 2)) + 1
+            r[f"{n}_price"] = Decimal(v) if isinstance(row[f"{n}_price"], Decimal) else v
+        if "wavax" not in names:
+            r["wavax_price"] = Decimal(int(int(row["wavax_price"]) * rng.uniform(0.5, 2)) + 1)
+    elif group == "interval":
+        r["interval"] = np.float64(int(_logu(rng, 12, 16)))
+    if group in ("aum", "supply"):
+        r["glp_price"] = (Decimal(r["aum"]) / E30) / (Decimal(r["glp"]) / E18) if r["glp"] else Decimal(1)
+    return r
+
+
+def gen_v1_frame(rng, nbars=None, degenerate=False):
+    """(rows, names, per-bar change class): bar 0 synthetic or recorded; each later bar changes every field ("all": a fresh row for the
+    same token set), one group only, or nothing ("same")"""
+    row0, names, kind = gen_v1_row(rng)
+    if degenerate is False and kind == "synthetic":
+        row0 = gen_v1_synth(rng, names, degenerate=False)
+    nbars = nbars or rng.randint(2, 5)
+    rows, classes = [row0], [kind]
+    rec = recorded_rows()
+    for _ in range(nbars - 1):
+        c = rng.random()
+        if c < 0.35:
+            if kind.startswith("recorded") and rec is not None:
+                r = rec.iloc[rng.randrange(len(rec))]
+                rows.append({col: r[col] for col in v1_needed_cols(names)})
+            else:
+                rows.append(gen_v1_synth(rng, names, degenerate=False))
+            classes.append("all")
+        elif c < 0.92:
+            g = rng.choice(V1_GROUPS)
+            rows.append(mutate_v1_row(rng, rows[-1], names, g))
+            classes.append(g)
+        else:
+            rows.append(dict(rows[-1]))
+            classes.append("same")
+    cols = list(rows[0])
+    rows = [{c_: r[c_] for c_ in cols} for r in rows]
+    return rows, names, classes
 
 
 def gen_v1_wallet(rng, names):
@@ -380,20 +544,28 @@ LP_FIELDS = ["long_amount", "short_amount", "total_usd", "gm_amount", "gm_usd", 
 
 
 class V2World:
-    def __init__(self, pool: dict, cfg: dict | None, wallet, amount=0.0, series=False, long=("weth", 18), short=("usdc", 6)):
+    """a real GmxV2Market on one pool row, or on several (bars): `set_bar` moves the SAME object to the next row — through
+    `set_market_status` on a data frame (series mode, what Actuator does) or by replacing the status dataclass"""
+
+    def __init__(self, pool, cfg: dict | None, wallet, amount=0.0, series=False, long=("weth", 18), short=("usdc", 6), allow_negative=False):
         import pandas as pd
         from demeter import TokenInfo, MarketInfo, MarketTypeEnum, Broker
         from demeter.gmx import GmxV2Market
         from demeter.gmx._typing2 import GmxV2Pool, GmxV2MarketStatus
-        from demeter.gmx.gmx_v2 import GmxV2PoolStatus
-        self.pool, self.cfg, self.series = dict(pool), dict(cfg or {}), series
+        self.pools = [dict(q) for q in pool] if isinstance(pool, (list, tuple)) else [dict(pool)]
+        self.bar = 0
+        self.cfg, self.series = dict(cfg or {}), series
         self.long, self.short = TokenInfo(*long), TokenInfo(*short)
         self.names = (long, short)
-        data = pd.DataFrame({k: [v] for k, v in pool.items() if v is not None}, index=[TS]) if series else None
+        data = None
+        if series:
+            data = pd.DataFrame({k: [q[k] for q in self.pools] for k, v in self.pools[0].items() if v is not None},
+                                index=[bar_ts(i) for i in range(len(self.pools))])
         self.market = GmxV2Market(MarketInfo("gm", MarketTypeEnum.gmx_v2), GmxV2Pool(self.long, self.short, self.long), data=data)
         for k, v in self.cfg.items():
             setattr(self.market.pool_config, k, v)
-        self.broker = Broker()
+        self.allow_negative = allow_negative
+        self.broker = Broker(allow_negative_balance=True) if allow_negative else Broker()
         self.broker.quote_token = self.market.quote_token      # USD
         self.acts = []
         self.broker._record_action_callback = self.acts.append
@@ -401,10 +573,23 @@ class V2World:
         for n, b in wallet:
             self.broker.set_balance(TokenInfo(n, 18), b)
         self.market.amount = amount
-        if series:
-            self.market.set_market_status(GmxV2MarketStatus(TS, None), None)
+        self.set_bar(0)
+
+    @property
+    def pool(self):
+        return self.pools[self.bar]
+
+    def set_bar(self, k: int):
+        from demeter.gmx._typing2 import GmxV2MarketStatus
+        from demeter.gmx.gmx_v2 import GmxV2PoolStatus
+        self.bar = k
+        if self.series:
+            self.market.set_market_status(GmxV2MarketStatus(bar_ts(k), None), None)
         else:
-            self.market._market_status = GmxV2MarketStatus(TS, GmxV2PoolStatus(**pool))
+            self.market._market_status = GmxV2MarketStatus(bar_ts(k), GmxV2PoolStatus(**self.pools[k]))
+
+    def object_fields(self):
+        return sorted(vars(self.market))
 
     def dump(self):
         return {"amount": float(self.market.amount), "wallet": [[k.name, v.balance] for k, v in self.broker.assets.items()]}
@@ -430,14 +615,24 @@ class V2World:
 
     def spec(self):
         d = self.dump()
-        return {"ver": 2, "pool": {k: (None if v is None else repr(float(v))) for k, v in self.pool.items()},
-                "cfg": {k: repr(float(v)) for k, v in self.cfg.items()}, "wallet": [[k, str(v)] for k, v in d["wallet"]],
-                "amount": repr(d["amount"]), "series": self.series}
+        sp = {"ver": 2, "pool": {k: (None if v is None else repr(float(v))) for k, v in self.pool.items()},
+              "cfg": {k: repr(float(v)) for k, v in self.cfg.items()}, "wallet": [[k, str(v)] for k, v in d["wallet"]],
+              "amount": repr(d["amount"]), "series": self.series}
+        if self.allow_negative:
+            sp["allow_negative"] = True
+        return sp
+
+    def spec_bars(self):
+        sp = self.spec()
+        sp["pools"] = [{k: (None if v is None else repr(float(v))) for k, v in q.items()} for q in self.pools]
+        return sp
 
     @staticmethod
     def from_spec(sp):
-        return V2World({k: (None if v is None else float(v)) for k, v in sp["pool"].items()}, {k: float(v) for k, v in sp["cfg"].items()},
-                       [(k.lower(), Decimal(v)) for k, v in sp["wallet"]], float(sp["amount"]), sp.get("series", False))
+        de = lambda q: {k: (None if v is None else float(v)) for k, v in q.items()}
+        return V2World([de(q) for q in sp["pools"]] if "pools" in sp else de(sp["pool"]), {k: float(v) for k, v in sp["cfg"].items()},
+                       [(k.lower(), Decimal(v)) for k, v in sp["wallet"]], float(sp["amount"]), sp.get("series", False),
+                       allow_negative=sp.get("allow_negative", False))
 
     def apply(self, op):
         m = self.market
@@ -453,6 +648,10 @@ class V2World:
         except Exception as e:  # noqa: BLE001
             out, res = type(e).__name__, None
         return out, res, self.acts[n0:]
+
+    def events_request(self, state, pool0, events, mode="float"):
+        return {"fn": "gmx2.events", "mode": mode, "config": self.cfg_json(), "pool0": pool0, "state": state,
+                "longKey": self.long.name, "shortKey": self.short.name, "events": events}
 
     def request(self, op, mode="float"):
         d = self.dump()
@@ -521,6 +720,62 @@ def gen_v2_pool(rng):
             pool["longAmount"] = pool["shortAmount"] = 0.0
         cls = "zero-" + k
     return pool, cls
+
+
+V2_GROUPS = ("amounts", "virtual", "poolValue", "supply", "impactPool", "prices")
+
+
+def mutate_v2_pool(rng, pool, group):
+    """the next bar's row with ONE group of fields changed"""
+    q = dict(pool)
+    f = lambda: rng.choice([0.3, 0.7, 0.95, 1.05, 1.5, 4.0])
+    if group == "amounts":
+        q["longAmount"], q["shortAmount"] = pool["longAmount"] * f(), pool["shortAmount"] * f()
+    elif group == "virtual":
+        if pool["virtualSwapInventoryLong"] is not None:
+            q["virtualSwapInventoryLong"] = pool["virtualSwapInventoryLong"] * f()
+        if pool["virtualSwapInventoryShort"] is not None:
+            q["virtualSwapInventoryShort"] = pool["virtualSwapInventoryShort"] * f()
+    elif group == "poolValue":
+        q["poolValue"] = pool["poolValue"] * f()
+    elif group == "supply":
+        q["marketTokensSupply"] = pool["marketTokensSupply"] * f()
+    elif group == "impactPool":
+        q["impactPoolAmount"] = rng.choice([0.0, 1e-6, 0.5, 3.0, 1e3, 1e9, pool["impactPoolAmount"] * 2 + 1])
+    elif group == "prices":
+        q["longPrice"], q["shortPrice"] = pool["longPrice"] * f(), round(pool["shortPrice"] * rng.uniform(0.97, 1.03), 6)
+        q["indexPrice"] = q["longPrice"]
+    return q
+
+
+def gen_v2_frame(rng, nbars=None, series=True):
+    """(pools, per-bar change class): every later bar changes everything ("all"), one group of fields, or nothing"""
+    while True:
+        pool, pcls = gen_v2_pool(rng)
+        if pcls.startswith("zero"):
+            continue
+        if series and (pool["virtualSwapInventoryLong"] is None or pool["virtualSwapInventoryShort"] is None):
+            continue
+        break
+    nbars = nbars or rng.randint(2, 5)
+    pools, classes = [pool], [pcls]
+    for _ in range(nbars - 1):
+        c = rng.random()
+        if c < 0.3:
+            while True:
+                q, qc = gen_v2_pool(rng)
+                if not qc.startswith("zero") and all((q[k] is None) == (pool[k] is None) for k in ("virtualSwapInventoryLong", "virtualSwapInventoryShort")):
+                    break
+            pools.append(q)
+            classes.append("all")
+        elif c < 0.92:
+            g = rng.choice(V2_GROUPS)
+            pools.append(mutate_v2_pool(rng, pools[-1], g))
+            classes.append(g)
+        else:
+            pools.append(dict(pools[-1]))
+            classes.append("same")
+    return pools, classes
 
 
 def gen_v2_cfg(rng):
